@@ -31,7 +31,7 @@ HIST_NOTE = ("Trusted: the side-effect log written by the commands themselves as
              "Exhaustive only within the stated small universes; held on the executions produced.")
 add(["C01", "C02", "C14"], "history", "exploration",
     "runtime monitor over invocation histories: breadth-first search over real project states to a fixpoint + seeded random histories, cache reference model as oracle",
-    "Every (state, operation) pair of a small universe is executed once by the real code (in-process, fresh SpokFile per invocation; a sample through the race-built binary) on 8 spokfile shapes, to a fixpoint where reported, plus random histories in a larger universe; the monitor compares every skip / re-run with a reference model of each task's last success built from the commands' own side-effect log.",
+    "Every (state, operation) pair of a small universe is executed once by the real code (in-process, fresh SpokFile per invocation; a sample and every run without task names through the binary) on 17 spokfile shapes, to a fixpoint where reported, plus random histories in a larger universe; the monitor compares every skip / re-run with a reference model of each task's last success built from the commands' own side-effect log.",
     HIST_NOTE, "DESIGN.md 6/C01 C02 C14")
 add(["C03"], "graph", "exploration",
     "runtime monitor with a recording shell.Runner over all digraphs on <=4 tasks x request lists, repeated for map-order variation; binary sample",
@@ -58,8 +58,8 @@ add(["C12", "C19"], "fswatch", "exploration",
     "Random project trees x spokfiles x actions run under strace; every successful mutating system call and the full snapshot diff of the sandbox must lie inside the write set the chosen action allows (declared outputs and cache for --clean; spokfile for a loadable --fmt; new spokfile + appended .gitignore for --init; cache directory otherwise).",
     "Trusted: strace, the harness's reference denotation of outputs; the sandbox is deep enough that 'above the project' is scratch space.", "DESIGN.md 6/C12 C19")
 add(["C17"], "find", "exploration",
-    "runtime monitor with a step bound enforced from inside the loop (injected logger + find.iter hook) over all directory chains; binary sample",
-    "All directory chains of depth <=4 (thorough 5) x start x stop are built and file.Find is called in-process with a counting logger and hook that stop a walk exceeding path-depth+1 iterations; the result is compared with a reference (nearest regular file named spokfile).",
+    "runtime monitor with a step bound enforced from inside the loop (injected logger + find.iter hook) over enumerated directory chains; binary sample",
+    "All directory chains of depth <=3 (thorough 4) over 10 level configurations, a sampled deeper level and nine chains of depth 33-70 x start x stop (each also through a symlink) are built and file.Find is called in-process with a counting logger and hook that stop a walk exceeding path-depth+1 iterations; the result is compared with a reference (nearest regular file named spokfile).",
     "Termination is a logical step bound, not wall-clock. Where start is not at or below stop both readings of the statement are accepted.", "DESIGN.md 6/C17")
 add(["C18"], "hash", "fault_enumeration",
     "Go race detector + fault injection through hook callbacks (vanish/truncate/replace between listing, open and read), hostile entries at every position, goroutine accounting in child workers",
